@@ -169,7 +169,14 @@ static s32 M_bcmp(void *a, void *b, u64 n) {
 }
 #endif
 #ifdef USES_strlen
+#ifdef VERIF_STRLEN_ZERO
+/* harness option (//@ MODELDEF VERIF_STRLEN_ZERO): in the units linked by that harness strlen() is reached only from the construction of
+ * std::string temporaries holding exception MESSAGES (checked by reading the IR callers); the texts are never observed, and
+ * building ~200 of them symbolically dominates the run.  Every such message becomes the empty string. */
+static u64 M_strlen(void *a) { (void)a; return 0; }
+#else
 static u64 M_strlen(void *a) { const u8 *x = (const u8 *)a; u64 n = 0; while (x[n]) n++; return n; }
+#endif
 #endif
 #ifdef USES_memchr
 static void *M_memchr(void *a, s32 c, u64 n) { u8 *x = (u8 *)a; for (u64 i = 0; i < n; i++) if (x[i] == (u8)c) return x + i; return 0; }
